@@ -30,22 +30,21 @@ theorem gen_Repr_reduce (x : Q) : RatFns.Repr_reduce x.num x.den = reduce x := b
       have hp : g ≠ 0 := (gcdK_ok_pos hg).ne'
       fsimp [h0, hp]
 
-theorem gen_Repr_reduce_with_hint (x : Q) (hint : Nat) :
+/-- for a positive denominator (every caller: the hint is a gcd of denominators).  The proof normalises the gcds modulo
+    associativity/commutativity, so a source rewrite that only re-associates `hint.gcd(a).gcd(b)` regenerates a body that this
+    same script still proves equal to the model. -/
+theorem gen_Repr_reduce_with_hint (x : Q) (hint : Nat) (hd : 0 < x.den) :
     RatFns.Repr_reduce_with_hint x.num x.den hint = reduceWithHint x hint := by
   unfold RatFns.Repr_reduce_with_hint reduceWithHint
   by_cases h0 : x.num = 0
   · fsimp [h0]
-  · rw [G.gcd_eq]
-    simp only [Int.natAbs_natCast]
-    cases hg1 : gcdK hint x.num.natAbs with
-    | error e => fsimp [h0]
-    | ok g1 =>
-      simp only [map_ok, ok_bind, G.gcd_eq, Int.natAbs_natCast]
-      cases hg : gcdK g1 x.den with
-      | error e => fsimp [h0]
-      | ok g =>
-        have hp : g ≠ 0 := (gcdK_ok_pos hg).ne'
-        fsimp [h0, hp]
+  · have hn : 0 < x.num.natAbs := Int.natAbs_pos.mpr h0
+    have hg : ∀ a, gcdK a x.den = .ok (Nat.gcd a x.den) := fun a => gcdK_of_pos_right a hd
+    have hg' : ∀ a, gcdK x.den a = .ok (Nat.gcd x.den a) := fun a => gcdK_of_pos_left a hd
+    have hm : ∀ a, gcdK a x.num.natAbs = .ok (Nat.gcd a x.num.natAbs) := fun a => gcdK_of_pos_right a hn
+    have hm' : ∀ a, gcdK x.num.natAbs a = .ok (Nat.gcd x.num.natAbs a) := fun a => gcdK_of_pos_left a hn
+    simp only [G.gcd_eq, Int.natAbs_natCast, hg, hg', hm, hm', map_ok, ok_bind]
+    fsimp [h0, hd.ne', Nat.gcd_comm, Nat.gcd_assoc, Nat.gcd_left_comm]
 
 theorem natCast_shiftRight_toNat (d z : Nat) : ((d : Int) >>> z).toNat = d >>> z := by
   rw [Int.shiftRight_eq_div_pow, Nat.shiftRight_eq_div_pow]
@@ -195,14 +194,24 @@ theorem gen_RBig_from_parts_const (neg : Bool) (n d : Nat) :
         simp only [G.rem_u, ← Int.natCast_emod] at hloop
         rw [show (fun (x : Int × Int) => match x with | (y, r) => r.toNat) = (fun s : Int × Int => s.2.toNat) from rfl,
           show (fun (x : Int × Int) => match x with | (y, r) => G.gt r 1) = (fun s : Int × Int => G.gt s.2 1) from rfl] at *
-        rw [hloop]
+        simp only [hloop]
         generalize constGcdLoop d (n % d) = p
         obtain ⟨y, r⟩ := p
         by_cases hr : r = 0
         · cases neg <;> fsimp [hr, G.div_u]
         · cases neg <;> fsimp [hr, G.div_u]
-      · have hb' : G.and (G.gt (n : Int) 1) (G.gt (d : Int) 1) = false := by
-          simp [G.and, G.gt]; omega
-        cases neg <;> fsimp [hd, hn, hb', hb]
+      · have hb2 : ¬ (1 < n ∧ 1 < d) := hb
+        cases neg <;> fsimp [hd, hn, hb2, G.and]
+
+theorem gen_Relaxed_from_parts_const (neg : Bool) (n d : Nat) :
+    RatFns.Relaxed_from_parts_const (if neg then -1 else 1) n d = xFromPartsConst neg n d := by
+  unfold RatFns.Relaxed_from_parts_const xFromPartsConst
+  by_cases hd : d = 0
+  · fsimp [hd]
+  · by_cases hn : n = 0
+    · fsimp [hd, hn]
+    · by_cases hle : tz n ≤ tz d
+      · cases neg <;> fsimp [hd, hn, hle, G.le, G.tz_prim, natCast_shiftRight_toNat] <;> norm_cast
+      · cases neg <;> fsimp [hd, hn, hle, G.le, G.tz_prim, natCast_shiftRight_toNat] <;> norm_cast
 
 end Dashu.Model.Ratio
